@@ -78,6 +78,10 @@ class SubprocessChannelIO(channel.ChannelIO):
                 else:
                     select_timeout = min(MIN_READ_WAIT, end_time - time.monotonic())
                     if select_timeout <= 0:
+                        # Deadline reached.  Data which is already waiting is
+                        # still returned (timeout=0 is a non-blocking read).
+                        if select.select([self.pty_master], [], [], 0)[0]:
+                            break
                         raise TimeoutError()
 
                 r, _, _ = select.select([self.pty_master], [], [], select_timeout)
